@@ -600,6 +600,7 @@ func VH18g_lattice() {
 		verif.Assume(false) // nothing to answer without a peer
 	}
 	waited := false
+	accepted := 0
 	for i := 0; i < 6; i++ {
 		if answering {
 			peer.Deliver([]byte{0x80, 0, 0, byte(i + 1), 'q'})
@@ -636,6 +637,7 @@ func VH18g_lattice() {
 		}
 		switch err {
 		case nil:
+			accepted++
 		case mangos.ErrSendTimeout:
 			verif.Assert(dl && !be, lab+"/timeout-reported-without-a-deadline-or-with-best-effort")
 			verif.Assert(verif.Now() >= t0+D, lab+"/send-timed-out-early")
@@ -653,6 +655,16 @@ func VH18g_lattice() {
 	}
 	if situation == 2 {
 		verif.Assert(!waited, lab+"/send-waits-although-the-peer-reads")
+	}
+	if (proto == "req" || proto == "surveyor") && accepted > 0 {
+		// a Send that returned success is over: its deadline has nothing more to say. The request it queued or
+		// transmitted stays outstanding - a Recv on it is not cancelled when the send deadline passes
+		var rerr error
+		rg := verif.Go("recv-after", func() { _, rerr = ep.RecvMsg() })
+		verif.Quiesce()
+		verif.RunClockTo(verif.Now() + D)
+		verif.Assert(!(rg.Done() && rerr == mangos.ErrCanceled), lab+"/recv-cancelled-by-the-send-deadline-of-a-send-that-had-returned")
+		verif.Reach("lattice-recv-after")
 	}
 	verif.Reach("lattice-checked")
 	sock.Close()
